@@ -326,6 +326,8 @@ class Ghost:
         j = z3.Int(ctx.fresh_name("j"))
         body = ropes.at_term(ctx, rope, j) < 128
         ctx.assume(z3.ForAll([j], z3.Implies(z3.And(j >= 0, j < zint(n)), body)))
+        if not ctx.feasible():
+            raise PathAbort()
         return SStr(rope)
 
     def bytes_find(self, rope, sub, node, last=False):
@@ -353,9 +355,13 @@ class Ghost:
             ctx.assume(ropes.at_term(ctx, rope, r) == zint(c))
             rng = z3.And(j > r, j < zint(n)) if last else z3.And(j >= 0, j < r)
             ctx.assume(z3.ForAll([j], z3.Implies(rng, ropes.at_term(ctx, rope, j) != zint(c))))
+            if not ctx.feasible():
+                raise PathAbort()  # this case of the axiom cannot occur on this path
             return SInt(r)
         ctx.assume(r == -1)
         ctx.assume(z3.ForAll([j], z3.Implies(z3.And(j >= 0, j < zint(n)), ropes.at_term(ctx, rope, j) != zint(c))))
+        if not ctx.feasible():
+            raise PathAbort()
         return -1
 
     # ------------------------------------------------------------------ ipaddress / socket
@@ -971,10 +977,13 @@ class Ghost:
         if isinstance(a, (SeqV, tuple, ListV)) and isinstance(b, (SeqV, tuple, ListV)):
             sa, sb = self._as_seq(a), self._as_seq(b)
             ok = ctx.check(zint(sa.n) == zint(sb.n), label + ".len", where)
+            # element-wise at a Skolem index; the index range holds only inside this scope
             i = ctx.fresh_int("sk")
-            ctx.assume(i >= 0)
-            ctx.assume(i < zint(sa.n))
-            self.prove_eq(sa.at(i), sb.at(i), label + "[i]", node)
+            ctx.push_premise(z3.And(i >= 0, i < zint(sa.n)))
+            try:
+                self.prove_eq(sa.at(i), sb.at(i), label + "[i]", node)
+            finally:
+                ctx.pop_premise()
             return
         if isinstance(a, ObjV) and isinstance(b, ObjV) and a.cls.is_dataclass and a.cls is b.cls:
             for fd in a.cls.dc_fields:
@@ -989,8 +998,7 @@ class Ghost:
 
             k = z3.Const(ctx.fresh_name("skkey"), Val)
             ctx.check(z3.Select(a.dom, k) == z3.Select(b.dom, k), label + ".domain", where)
-            ctx.assume(z3.Select(a.dom, k))
-            ctx.check(z3.Select(a.val, k) == z3.Select(b.val, k), label + ".values", where)
+            ctx.check(z3.Implies(z3.Select(a.dom, k), z3.Select(a.val, k) == z3.Select(b.val, k)), label + ".values", where)
             return
         f = lib.eq(I, a, b, node)
         ctx.check(f, label, where)
